@@ -336,6 +336,11 @@ def run(tree, rep, tier):
     r2(tree, rep)
     r3(tree, prog, rep)
     r4_r5(tree, rep)
+    from ..effects import writer_table
+    writer_table(tree, rep, "C13.R9", "SubChannel", "_pending_remote_data",
+                 {("__attrs_post_init__", "assign"), ("queue_remote_data", "call:append"), ("_deliver_queued_data", "del")},
+                 "data received (and acknowledged, so never retransmitted) before a listener exists is held here until _deliver_queued_data hands "
+                 "it to the protocol: emptying it anywhere else loses what the peer wrote before its close")
     from ..tablerules import application_outputs_last
     application_outputs_last(rep, "C13.R7", prog.machine("SubChannel"),
                              "the peer is never sent CLOSE (it never sees connectionLost) or the manager never forgets the subchannel id", min_rows=6)
@@ -364,3 +369,4 @@ MUTANTS.append(Mutant("halfclose-signal-before-close", SUB, "    read_closed.upo
                       "the application's writeConnectionLost runs before CLOSE is sent: if it raises the peer never sees connectionLost (seed C13-11)"))
 MUTANTS.append(Mutant("halfclose-first-signal-before-close", SUB, "    open_half.upon(local_close, enter=write_closed, outputs=[send_close,\n                                                             signal_writeConnectionLost])",
                       "    open_half.upon(local_close, enter=write_closed, outputs=[signal_writeConnectionLost,\n                                                             send_close])", "C13.R7", "finding F16 put back"))
+MUTANTS.append(Mutant("remote-close-drops-held-data", SUB, "    def queue_remote_close(self):\n", "    def queue_remote_close(self):\n        self._pending_remote_data = []\n", "C13.R9", "seed C13-17"))
